@@ -1,6 +1,7 @@
 # -*- coding: utf-8 -*- vim: fileencoding=utf-8 :
 
 import collections.abc
+import copy
 import contextlib
 import textwrap
 import weakref
@@ -2240,6 +2241,20 @@ class Deb822DuplicateFieldsParagraphElement(Deb822ParagraphElement):
             {}  # type: Dict[_strI, List[KVPNode]]
         self._init_kvpair_fields(kvpair_elements)
         self._init_parent_of_parts()
+
+    def __deepcopy__(self, memo):
+        # type: (Dict[int, Any]) -> Deb822DuplicateFieldsParagraphElement
+        # The table of the fields holds the nodes of the field list.  Copied
+        # attribute by attribute, the list is rebuilt with nodes of its own
+        # while the table gets copies of the old nodes, whose links still
+        # lead into the list of the original: edits of the copy would change
+        # the original.  Build the copy from copies of the fields instead.
+        new = self.__class__([copy.deepcopy(kv, memo)
+                              for kv in self._kvpair_order])
+        memo[id(self)] = new
+        # (as a copy made attribute by attribute: the weak link is kept)
+        new._parent_element = self._parent_element
+        return new
 
     @property
     def has_duplicate_fields(self):
